@@ -337,7 +337,7 @@ func TestRaceC02(t *testing.T) {
 	unwinds := 0
 	t0 := time.Now()
 	for k := 0; k < 3; k++ {
-		if !deepUnwind(t, 15000+next(25000), k) {
+		if !deepUnwind(t, 25000+next(15000), k) {
 			return
 		}
 		unwinds++
@@ -410,55 +410,81 @@ func cpuTime() time.Duration {
 // meanwhile), which a loaded machine cannot inflate, and against a bound two orders of magnitude above what
 // unwinding 40000 frames costs.
 func deepUnwind(t *testing.T, depth int, form int) bool {
-	bottoms := []string{"close(ready)\nv = <-block\nreturn v", "close(ready)\nfor { tick() }", "close(ready)\nblock <- 1\nreturn 0"}
+	bottoms := []string{"atbottom()\nv = <-block\nreturn v", "atbottom()\nfor { spin() }", "atbottom()\nblock <- 1\nreturn 0"}
 	frames := []string{"return down(n - 1) + 1", "defer tick()\nreturn down(n - 1) + 1", "x = down(n - 1)\nreturn x"}
 	src := "func down(n) {\nif n == 0 {\n" + bottoms[form%len(bottoms)] + "\n}\n" + frames[form%len(frames)] + "\n}\ndown(depth)\n"
 	e := env.NewEnv()
 	ready := make(chan struct{})
-	e.Define("ready", ready)
+	// The cost of returning is measured on the interpreter's own OS thread (the goroutine is locked to it), from the
+	// last moment the script was seen at the bottom of the recursion to the return of the call, and judged against
+	// the cost of going DOWN the same number of calls, measured the same way a moment earlier: no absolute figure,
+	// no other thread's work (the garbage collector's workers scale with the machine) enters the verdict.
+	var sample atomic.Int64 // thread CPU time when the script was last seen at the bottom
+	var descend time.Duration
+	var start time.Duration
 	e.Define("block", make(chan int64))
 	e.Define("depth", int64(depth))
 	e.Define("tick", func() {})
+	e.Define("atbottom", func() {
+		now := threadCPU()
+		descend = now - start
+		sample.Store(int64(now))
+		close(ready)
+	})
+	e.Define("spin", func() { sample.Store(int64(threadCPU())) })
 	ctx, cancel := context.WithCancel(context.Background())
 	defer cancel()
-	done := make(chan error, 1)
+	type outcome struct {
+		err    error
+		unwind time.Duration
+	}
+	done := make(chan outcome, 1)
 	go func() {
+		runtime.LockOSThread()
+		defer runtime.UnlockOSThread()
+		start = threadCPU()
 		_, err := vm.ExecuteContext(ctx, e, &vm.Options{Debug: false}, src)
-		done <- err
+		done <- outcome{err, threadCPU() - time.Duration(sample.Load())}
 	}()
 	select {
 	case <-ready:
-	case err := <-done:
+	case <-done:
 		// not this property's business (e.g. a recursion limit): nothing to measure
-		_ = err
 		return true
 	case <-time.After(120 * time.Second):
 		return true
 	}
 	time.Sleep(5 * time.Millisecond)
-	c0 := cpuTime()
 	cancel()
-	const bound = 4 * time.Second
-	for {
-		select {
-		case err := <-done:
-			if err == nil || err.Error() != "execution interrupted" {
-				fmt.Printf("REAL-LEG VIOLATION class=interrupt-swallowed\na call cancelled %d script calls deep returned error %v instead of \"execution interrupted\"\n%s\n", depth, err, src)
-				t.FailNow()
-			}
-			if used := cpuTime() - c0; used > bound {
-				fmt.Printf("REAL-LEG VIOLATION class=cancel-slow\na call cancelled %d script calls deep needed %v of CPU time to return (bound %v): returning after cancellation must not grow faster than the depth\n%s\n", depth, used, bound, src)
-				t.FailNow()
-			}
-			fmt.Printf("deep unwind: depth %d form %d: %v of CPU time from cancel to return\n", depth, form, cpuTime()-c0)
-			return true
-		case <-time.After(200 * time.Millisecond):
-			if used := cpuTime() - c0; used > 10*bound {
-				fmt.Printf("REAL-LEG VIOLATION class=cancel-slow\na call cancelled %d script calls deep has not returned after %v of CPU time (bound %v)\n%s\n", depth, used, bound, src)
-				t.FailNow()
-			}
+	// going down d calls and coming back up with an error are both linear in d on an honest interpreter (coming back
+	// is the cheaper of the two); an unwinding that copies something per frame is quadratic and, this deep, costs
+	// hundreds of times the descent
+	bound := 6*descend + 500*time.Millisecond
+	giveUp := time.After(120 * time.Second)
+	select {
+	case o := <-done:
+		if o.err == nil || o.err.Error() != "execution interrupted" {
+			fmt.Printf("REAL-LEG VIOLATION class=interrupt-swallowed\na call cancelled %d script calls deep returned error %v instead of \"execution interrupted\"\n%s\n", depth, o.err, src)
+			t.FailNow()
 		}
+		if o.unwind > bound {
+			fmt.Printf("REAL-LEG VIOLATION class=cancel-slow\na call cancelled %d script calls deep needed %v of its thread's CPU time to return; going down those calls had taken %v (bound: 6 times that plus 0.5 s = %v): returning after cancellation must not grow faster than the depth\n%s\n", depth, o.unwind, descend, bound, src)
+			t.FailNow()
+		}
+		fmt.Printf("deep unwind: depth %d form %d: %v of thread CPU time from cancel to return, %v to go down\n", depth, form, o.unwind, descend)
+		return true
+	case <-giveUp:
+		fmt.Printf("REAL-LEG VIOLATION class=cancel-slow\na call cancelled %d script calls deep has not returned 120 s after the cancel (going down had taken %v of CPU time)\n%s\n", depth, descend, src)
+		t.FailNow()
 	}
+	return true
+}
+
+// threadCPU: user+system CPU time of the calling OS thread.
+func threadCPU() time.Duration {
+	var ru syscall.Rusage
+	syscall.Getrusage(1 /* RUSAGE_THREAD */, &ru)
+	return time.Duration(ru.Utime.Nano() + ru.Stime.Nano())
 }
 
 // TestRaceC01 is the real-thread leg of C01 (built WITHOUT the race detector): script goroutines that share no
